@@ -256,7 +256,8 @@ HOSTILE = ["__import__('os').system('touch /tmp/reduino_canary')", "open('/tmp/r
            "exec('import os')", "(lambda: 1)()", "[c for c in ().__class__.__base__.__subclasses__()]", "9**9**9", "1/0", "-'5'",
            "max(1,'a')", "int('x')", "1e999", "float('nan')", "10**400", "1 << 100000", "'a' * 10**9", "len(5)", "min()",
            "[250, 250]", "{1: 2}", "x.__class__", "getattr(led, 'pin')", "compile('1','f','eval')", "globals()", "1 if 1/0 else 2",
-           "f'{1/0}'", "f'{open}'", "not []", "~1.5", "2 @ 3", "(yield)", "await x", "*[1]", "a := 5", "b'\\x00'", "1j", "..."]
+           "f'{1/0}'", "f'{open}'", "not []", "~1.5", "2 @ 3", "(yield)", "await x", "*[1]", "a := 5", "b'\\x00'", "1j", "...",
+           "(1,)", "()", "[]", "(1, 2, 3)", "-1e999", "None", "'A0'", "1e308 * 10", "True", "[[1]]"]
 POSITIONS = {
     "sleep": "sleep({e})", "pin": "led2 = Led({e})", "brightness": "led.set_brightness({e})", "blink_kw": "led.blink(10, times={e})",
     "condition": "if {e}:\n    sleep(1)", "while": "while {e}:\n    sleep(1)", "range": "for i in range({e}):\n    sleep(1)",
@@ -265,8 +266,15 @@ POSITIONS = {
     "pattern": "led.flash_pattern({e})", "rgb": "rgb.set_color({e}, 0, 0)", "servo_kw": "s = Servo(9, min_angle={e})",
     "lcd_glyph": "lcd.glyph(0, {e})", "ultra_model": "u = Ultrasonic(2, 3, sensor={e})", "tone": "bz.play_tone({e})",
     "index": "ys = [1, 2]\nsleep(ys[{e}])", "call_arg": "def h(a):\n    return a\nsleep(h({e}))",
+    "tuple_unpack": "u1, u2 = {e}", "tuple_unpack_declared": "p, q = {e}", "buzzer_pin": "bz2 = Buzzer({e})",
+    "buzzer_default": "bz3 = Buzzer(9, default_frequency={e})", "servo_pin": "s2 = Servo({e})", "button_pin": "b2 = Button({e})",
+    "pot_pin": "pot = Potentiometer({e})", "lcd_addr": "lcd2 = LCD(i2c_addr={e})", "lcd_cols": "lcd3 = LCD(i2c_addr=0x3F, cols={e})",
+    "rgb_pin": "rgb2 = RGBLed({e}, 5, 6)", "motor_pin": "m2 = DCMotor({e}, 7, 11)", "motor_speed": "m3 = DCMotor(4, 7, 11)\nm3.set_speed({e})",
+    "sweep": "bz.sweep({e}, 800, duration_ms=100, steps=3)", "melody_tempo": "bz.melody('success', tempo={e})",
+    "lcd_write": "lcd.write({e}, 0, 'x')", "lcd_progress": "lcd.progress(0, {e}, max_value=10)", "serial_baud": "mon2 = SerialMonitor({e})",
+    "aug": "p += {e}", "return": "def r():\n    return {e}\nsleep(r())", "list_append": "zs.append({e})",
 }
-SITE_HDR = ('from Reduino.Actuators import Led, RGBLed, Servo, Buzzer\nfrom Reduino.Utils import sleep\nfrom Reduino.Sensors import Ultrasonic\n'
+SITE_HDR = ('from Reduino.Actuators import Led, RGBLed, Servo, Buzzer\nfrom Reduino.Utils import sleep\nfrom Reduino.Sensors import Ultrasonic, Button, Potentiometer\nfrom Reduino.Actuators import DCMotor\n'
             'from Reduino.Displays import LCD\nfrom Reduino.Communication import SerialMonitor\nmon = SerialMonitor(9600, "COM3")\n'
             'led = Led(13)\nrgb = RGBLed(3, 5, 6)\nbz = Buzzer(8)\nlcd = LCD(i2c_addr=0x27)\n'
             # statements that make the transpiler allocate names / counters / environments before the hostile line
